@@ -41,17 +41,31 @@ Theorem C06_good_deposit_delivered : forall p es g m st,
 Proof. exact good_deposit_delivered. Qed.
 Print Assumptions C06_good_deposit_delivered.
 
+(* Deposits that share field values.  Nothing in the code is keyed by the deposit nonce (which is
+   counted per destination domain), the resource, the recipient or the bytes: deposits of one range
+   that carry the same nonce for different destinations, the same destination, or that are
+   byte-identical each yield their own message - every message owed to a well-formed deposit is in
+   the group of its destination as many times as it is owed, whatever else the range holds. *)
+Theorem C06_each_its_own_message : forall p es g m,
+  run p es = Done g ->
+  (count m (filter_map (owed p) (flat es)) <= count m (get (dest m) g))%nat.
+Proof. exact each_its_own_message. Qed.
+Print Assumptions C06_each_its_own_message.
+
 (* The judge used on the implementation's observations accepts the model on every input ... *)
 Theorem C06_spec_ok_model : forall p es, spec_ok p es false (run p es) = true.
 Proof. exact spec_ok_model. Qed.
 Print Assumptions C06_spec_ok_model.
 
-(* ... and whatever observation it accepts satisfies the statement of the property. *)
+(* ... and whatever observation it accepts satisfies the statement of the property: the process
+   survived and processing ended, and each well-formed deposit has its message in the group of its
+   destination - with multiplicity: deposits that are owed equal messages get one each. *)
 Theorem C06_spec_ok_sound : forall p es crashed r,
   spec_ok p es crashed r = true ->
   crashed = false /\
   forall m st, In (Good m, st) (flat es) -> (uses_status p = true -> st = StNew) ->
-    exists g, r = Done g /\ In m (get (dest m) g).
+    exists g, r = Done g /\ In m (get (dest m) g) /\
+      (count m (filter_map (owed p) (flat es)) <= count m (get (dest m) g))%nat.
 Proof. exact spec_ok_sound. Qed.
 Print Assumptions C06_spec_ok_sound.
 
@@ -100,16 +114,26 @@ Theorem C06_sub_retry_old_refuted_panic : exists es m st,
 Proof. exact sub_retry_old_refuted_panic. Qed.
 Print Assumptions C06_sub_retry_old_refuted_panic.
 
-(* Non-vacuity: a range with poison at the head, in the middle and at the tail, two destinations. *)
+(* Non-vacuity: a range with poison at the head, in the middle and at the tail, two destinations;
+   and a retried range whose deposits share the nonce 7 for destinations 2 and 3 (the first of them
+   malformed), share destination and nonce with different contents, and hold a byte-identical pair. *)
 Example C06_nonvacuous :
-  let es := [RDeps [(Bad Panic, StNew); (Good (2, 1), StNew); (Bad Err, StNew); (Good (3, 2), StNew);
-                    (Bad (Ok (2, 9)), StNew); (Good (2, 3), StNew); (Bad Skip, StNew)]] in
-  run EvmRetryV1 es = Done [(2, [(2, 1); (2, 9); (2, 3)]); (3, [(3, 2)])] /\
-  healthy EvmRetryV1 es 2 = [(2, 1); (2, 3)] /\
+  let es := [RDeps [(Bad Panic, StNew); (Good (2, (1, 1)), StNew); (Bad Err, StNew); (Good (3, (2, 2)), StNew);
+                    (Bad (Ok (2, (9, 3))), StNew); (Good (2, (3, 1)), StNew); (Bad Skip, StNew)]] in
+  run EvmRetryV1 es = Done [(2, [(2, (1, 1)); (2, (9, 3)); (2, (3, 1))]); (3, [(3, (2, 2))])] /\
+  healthy EvmRetryV1 es 2 = [(2, (1, 1)); (2, (3, 1))] /\
   run_old EvmRetryV1 es = Done [] /\ run_old SubRetry es = Done [] /\
   run SubRetry es = run EvmRetryV1 es /\ run BtcDeposits es = run EvmRetryV1 es /\
-  sent_ok (batches_of [(2, [(2, 1); (2, 9); (2, 3)]); (3, [(3, 2)])]) = true /\
+  sent_ok (batches_of [(2, [(2, (1, 1)); (2, (9, 3)); (2, (3, 1))]); (3, [(3, (2, 2))])]) = true /\
   (* a destination all of whose deposits are malformed has NO group; an empty or nil-holding batch is rejected *)
-  run EvmDeposits [RDeps [(Good (2, 1), StNew); (Bad Err, StNew)]] = Done [(2, [(2, 1)])] /\
-  sent_ok [[Some (2, 1)]; []] = false /\ sent_ok [[Some (2, 1); None]] = false.
+  run EvmDeposits [RDeps [(Good (2, (1, 1)), StNew); (Bad Err, StNew)]] = Done [(2, [(2, (1, 1))])] /\
+  sent_ok [[Some (2, (1, 1))]; []] = false /\ sent_ok [[Some (2, (1, 1)); None]] = false /\
+  let sh := [RDeps [(Bad Panic, StNew); (Good (3, (7, 1)), StNew); (Good (2, (7, 1)), StNew)];
+             RDeps [(Good (2, (7, 2)), StNew); (Good (3, (7, 1)), StNew)]] in
+  run SubRetry sh = Done [(3, [(3, (7, 1)); (3, (7, 1))]); (2, [(2, (7, 1)); (2, (7, 2))])] /\
+  spec_ok SubRetry sh false (run SubRetry sh) = true /\
+  (* de-duplication by nonce alone, by (destination, nonce), or of the byte-identical pair is rejected *)
+  spec_ok SubRetry sh false (Done [(3, [(3, (7, 1)); (3, (7, 1))])]) = false /\
+  spec_ok SubRetry sh false (Done [(3, [(3, (7, 1)); (3, (7, 1))]); (2, [(2, (7, 1))])]) = false /\
+  spec_ok SubRetry sh false (Done [(3, [(3, (7, 1))]); (2, [(2, (7, 1)); (2, (7, 2))])]) = false.
 Proof. vm_compute. repeat split. Qed.
